@@ -95,7 +95,9 @@ class Configuration:
             np.random.default_rng(self.seed)
             random.seed(self.seed)
         else:
-            not_deterministic_seed = (os.getpid() * int(time.time())) % 123456789
+            # operating-system entropy: a value derived from the process id and the clock (in seconds) is the same for
+            # two runs started within one second, which re-seeded the second run to the state of the first
+            not_deterministic_seed = int.from_bytes(os.urandom(4), "little")
             np.random.seed(not_deterministic_seed)
             np.random.default_rng(not_deterministic_seed)
             random.seed(not_deterministic_seed)
